@@ -66,6 +66,7 @@ type pend struct{ errno int }
 func c17Check(c *mon.Ctx, k *c17Case) {
 	r := mon.NewRand(int64(k.Seed), 5)
 	sim := simkernel.New(k.StartSeq)
+	sim.AllowSeqZero = true   // no unsolicited events in these histories: a request may be numbered 0 (counter wrap)
 	errnoFor := map[int]int{} // request index -> errno
 	rulesFor := map[int][][]byte{}
 	reqErr := 0
@@ -335,7 +336,7 @@ func c17Check(c *mon.Ctx, k *c17Case) {
 }
 
 func c17Gen(r *mon.Rand, withK4 bool) *c17Case {
-	k := &c17Case{StartSeq: mon.Pick(r, []uint32{1, 100, 0xFFFFFFF0, 0x7FFFFFFE}), Seed: r.Uint64(), Closers: mon.Pick(r, []int{1, 1, 2, 4, 8}), ExtraClose: r.Intn(5), CloseSendFail: r.Chance(1, 8)}
+	k := &c17Case{StartSeq: mon.Pick(r, []uint32{1, 100, 0xFFFFFFF0, 0x7FFFFFFE, 0xFFFFFFFE, 0xFFFFFFFF, 0}), Seed: r.Uint64(), Closers: mon.Pick(r, []int{1, 1, 2, 4, 8}), ExtraClose: r.Intn(5), CloseSendFail: r.Chance(1, 8)}
 	n := r.Range(1, 14)
 	burst := r.Chance(1, 12) // a long run of NoWait requests (dozens of outstanding ACKs) before waiting
 	if burst {
